@@ -114,14 +114,15 @@ def create_pinn_ob(shared, slices=(jnp.s_[0:1], jnp.s_[1:3])):
                         [PM + "create_PINN", PM + "_MLP.__call__", PM + "_MLP.__post_init__", PM + "PINN.eval_nn"])
 
 
-def spinn_ob(kind, d, r, m, B):
-    """d = total number of separable dimensions (time included)"""
+def spinn_ob(kind, d, r, m, B, bare=False):
+    """d = total number of separable dimensions (time included); bare: called with the bare network parameters"""
     def build():
         fac = _Factory("f")
         u = create_SPINN(jax.random.PRNGKey(0), d, r, ((fac, 1, r * m),), _eqt(kind), m)
         assert fac.count == d
         def fn(th, t, x):
-            params = Params(nn_params=jax.tree_util.tree_map(lambda leaf: th, u.params), eq_params={})
+            nn = jax.tree_util.tree_map(lambda leaf: th, u.params)
+            params = nn if bare else Params(nn_params=nn, eq_params={})
             return u(x, params) if kind == "statio" else u(t, x, params)
         def spec(th, t, x, wrong=False):
             def coord(i, j):      # value of coordinate j for batch index i ; time first
@@ -146,12 +147,12 @@ def spinn_ob(kind, d, r, m, B):
         dx = d - 1 if kind == "nonstatio" else d
         return dict(fn=fn, spec=spec, canary=lambda *z: spec(*z, wrong=True),
                     inputs=[Inp("th", (1,)), Inp("t", (B, 1)), Inp("x", (B, max(dx, 1)))])
-    return EqObligation(f"C10/SPINN.__call__/ensures[{kind},d={d},r={r},m={m},B={B}]", build,
+    return EqObligation(f"C10/SPINN.__call__/ensures[{kind},d={d},r={r},m={m},B={B}{',bare_nn_params' if bare else ''}]", build,
                         ["jinns.utils._spinn:SPINN.__call__", "jinns.utils._spinn:SPINN.eval_nn",
                          "jinns.utils._spinn:_SPINN.__call__", "jinns.utils._spinn:create_SPINN"])
 
 
-def hyper_ob(kind, d, m, hp_shapes, transforms, order=None):
+def hyper_ob(kind, d, m, hp_shapes, transforms, order=None, tshape=(1,)):
     din = {"ODE": 1, "statio": d, "nonstatio": 1 + d}[kind]
     hid = 2
     keys = order or ["a", "b"][:len(hp_shapes)]
@@ -177,7 +178,8 @@ def hyper_ob(kind, d, m, hp_shapes, transforms, order=None):
                 return u(x, params)
             return u(t, x, params)
         def spec(th, t, x, a, b, cpar, wrong=False):
-            inp = {"ODE": [t[0]], "statio": pts(x), "nonstatio": [t[0]] + pts(x)}[kind]
+            t0_ = t[0] if t.shape else t[()]
+            inp = {"ODE": [t0_], "statio": pts(x), "nonstatio": [t0_] + pts(x)}[kind]
             hin = []
             for kk in keys:                                  # in the order of the `hyperparams` list
                 v = {"a": a, "b": b}[kk]
@@ -198,9 +200,10 @@ def hyper_ob(kind, d, m, hp_shapes, transforms, order=None):
             return arr(lambda j: out[j[0]], (m,))
         shapes = list(hp_shapes) + [()] * (2 - len(hp_shapes))
         return dict(fn=fn, spec=spec, canary=lambda *z: spec(*z, wrong=True),
-                    inputs=[Inp("th", (1,)), Inp("t", (1,)), Inp("x", (max(d, 1),)), Inp("a", shapes[0]), Inp("b", shapes[1]),
+                    inputs=[Inp("th", (1,)), Inp("t", tshape), Inp("x", (max(d, 1),)), Inp("a", shapes[0]), Inp("b", shapes[1]),
                             Inp("cpar", ())])
-    return EqObligation(f"C10/HYPERPINN.eval_nn/ensures[{kind},d={d},m={m},hyperparams={'/'.join(keys)}:{hp_shapes},transforms={int(transforms)}]",
+    return EqObligation(f"C10/HYPERPINN.eval_nn/ensures[{kind},d={d},m={m},hyperparams={'/'.join(keys)}:{hp_shapes},transforms={int(transforms)}"
+                        f"{'' if tshape == (1,) else ',t=' + str(tshape)}]",
                         build, ["jinns.utils._hyperpinn:HYPERPINN.eval_nn", "jinns.utils._hyperpinn:HYPERPINN._hyper_to_pinn",
                                 "jinns.utils._hyperpinn:_get_param_nb", PM + "PINN.__call__"])
 
@@ -306,8 +309,11 @@ def obligations(tier):
                 if d == 3 and r == 2 and m == 2 and tier == "quick":
                     continue
                 obs.append(spinn_ob(kind, d, r, m, B))
+            obs.append(spinn_ob(kind, d, 2, 2, 2 if d < 3 else 1, bare=True))
     for kind, d in (("ODE", 0), ("statio", 2), ("nonstatio", 1)):
         obs.append(hyper_ob(kind, d, 1, [()], False))
+        if kind == "ODE":
+            obs.append(hyper_ob(kind, d, 2, [(), (2,)], False, tshape=()))      # a scalar time, as ODE batches give under vmap
         obs.append(hyper_ob(kind, d, 2, [(), (2,)], True))
         obs.append(hyper_ob(kind, d, 1, [(), (2,)], False, order=["b", "a"]))     # list order differs from the dict's key order
         if tier == "thorough":
